@@ -30,7 +30,7 @@ FOCUS = {"undefined-var": "nope", "undefined-field": "x", "unknown-path-in-set":
          "set-block-first-filter": "round"}
 # errors raised on the result of a sub-expression (MC_Spans!ProdKind / ConsAccepts): operand text, consumer with the operand as P
 from sites import PROD, CONS
-OKCOMP = "{% component ok() %}o{% endcomponent ok %}"
+from sites import OKCOMP
 
 
 def units_of(F):
